@@ -169,6 +169,14 @@ impl Area {
             Area::Cols { c1, a1, .. } => Area::Cell(CellRef { col: *c1, row: 1, abs_col: *a1, abs_row: false }),
         }
     }
+    pub fn last_cell(&self) -> Area {
+        match self {
+            Area::Cell(c) => Area::Cell(c.clone()),
+            Area::Range(_, b) => Area::Cell(b.clone()),
+            Area::Rows { r2, a2, .. } => Area::Cell(CellRef { col: 1, row: *r2, abs_col: false, abs_row: *a2 }),
+            Area::Cols { c2, a2, .. } => Area::Cell(CellRef { col: *c2, row: 1, abs_col: *a2, abs_row: false }),
+        }
+    }
     /// largest row / column mentioned (None for the unbounded axis of whole rows/columns)
     pub fn max_row(&self) -> Option<u32> {
         match self {
